@@ -65,7 +65,17 @@ def gen_case(streams, tier):
     scheds = [{'hash_seed': s.getrandbits(48), 'perm_seed': s.getrandbits(32),
                'noise': s.choice([0, 2, 5])} for _ in range(K)]
     f = streams['faults']
-    return {'prop': ID, 'script': script, 'init': init, 'kind': kind,
+    blif = None
+    if f.random() < (0.05 if tier == 'quick' else 0.08):
+        # the same design may also come out of the BLIF importer: rendered in plain processes
+        # under different PYTHONHASHSEEDs (string hashing cannot be varied inside one process)
+        from . import c12
+        for _ in range(4):
+            c12case = c12.gen_case(streams, tier)
+            if c12case.get('fmt') == 'blif':
+                blif = {'text': c12.blif_text(c12case), 'seeds': [f.randrange(1, 1000) for _ in range(3)]}
+                break
+    return {'prop': ID, 'script': script, 'init': init, 'kind': kind, 'blif': blif,
             'add_reset': g.choice([True, False, 'asynchronous']),
             'cycles': gen.gen_inputs(streams['inputs'], script, ncyc),
             'scheds': scheds,
@@ -139,6 +149,34 @@ def run(case, res):
                 break
     if not case['cycles']:
         return None
+    # ---- (a0) a BLIF-sourced design in plain processes under several PYTHONHASHSEEDs -------------
+    if case.get('blif'):
+        outs_b = []
+        for phs in case['blif']['seeds']:
+            env = dict(os.environ)
+            env['PYTHONHASHSEED'] = str(phs)
+            env['PYTHONPATH'] = REPO_DIR + ':' + VERIF_DIR
+            env.pop('PYRTL_VERIF', None)
+            p = subprocess.run([PY, '-m', 'verifsim.render'],
+                               input=json.dumps({'blif': case['blif']['text'], 'merge': True}).encode(),
+                               env=env, cwd=VERIF_DIR, stdout=subprocess.PIPE, stderr=subprocess.PIPE,
+                               timeout=90)
+            if p.returncode != 0:
+                res.probes.hit('blif_render_refused')
+                outs_b = []
+                break
+            outs_b.append(json.loads(p.stdout.decode()))
+            res.faults.hit('other_process')
+        for o in outs_b[1:]:
+            for name in ('verilog', 'trace'):
+                if o[name] != outs_b[0][name]:
+                    return Violation('determinism', 'text_differs_between_processes',
+                                     {'channel': name, 'source': 'input_from_blif',
+                                      'pythonhashseeds': case['blif']['seeds'],
+                                      'diff': first_diff(outs_b[0][name], o[name])},
+                                     ['channel:' + name, 'source:blif'])
+        if outs_b:
+            res.probes.hit('blif_sourced_design_rendered')
     # ---- (a) K in-process builds ---------------------------------------------------------
     base = None
     base_k = None
@@ -449,6 +487,10 @@ def _const_regs(script):
 
 
 def candidates(case):
+    if case.get('blif'):
+        c = copy.deepcopy(case)
+        c['blif'] = None
+        yield c
     if len(case['scheds']) > 2:
         for i in range(len(case['scheds'])):
             c = copy.deepcopy(case)
